@@ -153,6 +153,88 @@ def unit(item):
     return p
 
 
+def unit_files(item):
+    """Instances READ FROM FILES: alphabet instances with different operation counts are written to one directory in the
+    documented text formats, read back by the library's file generator (which pads them to a common size) and every
+    mask-admitted action sequence of the re-read instance is judged against the ORIGINAL instance exactly like above
+    (reported schedule valid for the original data, makespan = -reward, independent simulator agrees)."""
+    import shutil
+    import tempfile
+
+    from .c19 import _scratch, write_jssp_files
+
+    _, key, tier, seed = item
+    spec = SPECS[key]
+    p = Partial()
+    if spec.jssp:
+        from rl4co.envs.scheduling.jssp.generator import JSSPFileGenerator as FileGen
+        parser = None
+    else:
+        from rl4co.envs.scheduling.fjsp import parser
+        from rl4co.envs.scheduling.fjsp.generator import FJSPFileGenerator as FileGen
+    by_jobs = {}
+    for iid, inst in spec.instances("quick", seed):
+        if max(max(r) for r in inst["proc_times"]) > 100:
+            continue
+        by_jobs.setdefault((len(inst["start_op_per_job"]), len(inst["proc_times"])), []).append((iid, inst))
+    for (J, M), group in sorted(by_jobs.items()):
+        reals = {}
+        for iid, inst in group:
+            reals.setdefault(sum(1 for x in inst["pad_mask"] if not x), (iid, inst))
+        if len(reals) < 2:
+            continue
+        chosen = [reals[k] for k in sorted(reals)][:3]
+        d = tempfile.mkdtemp(prefix="c07_", dir=_scratch())
+        try:
+            env0 = spec.env(chosen[0][1])
+            if parser is not None:
+                parser.write(d, env0.reset(torch.cat([spec.td(c[1]) for c in chosen], 0)))
+            else:
+                write_jssp_files(d, [c[1] for c in chosen])
+            td1 = FileGen(d)(len(chosen))
+            for r in range(td1.batch_size[0]):
+                one = td1[r : r + 1].clone()
+                real = int((~one["pad_mask"][0]).sum())
+                cand = [c for c in chosen if torch.equal(torch.tensor(c[1]["proc_times"])[:, : sum(1 for x in c[1]["pad_mask"] if not x)].float(), one["proc_times"][0, :, : sum(1 for x in c[1]["pad_mask"] if not x)].float()) and not bool(one["proc_times"][0, :, sum(1 for x in c[1]["pad_mask"] if not x) :].any())]
+                if not cand:
+                    continue  # content changes through the text format are C19's business
+                iid, inst = cand[0]
+                n_real = sum(1 for x in inst["pad_mask"] if not x)
+                rec0 = dict(kind="sched_file", spec=spec.key, instance_id=iid, instance=inst, directory_of=[c[0] for c in chosen])
+                if real != n_real:
+                    p.violation(sig(PID, spec, "schedule", "file_instance_operation_count"), rec0, f"{spec.key} {iid}: read back from a directory of {len(chosen)} files the instance has {real} non-padding operations, the written one has {n_real} (a phantom / missing operation can never be scheduled exactly once)")
+                    continue
+                env = spec.env(inst)
+                one["start_op_per_job"] = one["start_op_per_job"].long()
+                one["end_op_per_job"] = one["end_op_per_job"].long()
+                tree = E.explore(env, one, max_states=20_000)
+                p.add(states=tree.states, transitions=tree.transitions, trees=1, distinct_count=len(tree.leaves))
+                if tree.capped or not tree.leaves:
+                    p.add(caps_hit=1 if tree.capped else 0)
+                    continue
+                rewards, tdf = leaf_rewards(spec, env, tree)
+                keys = ["start_times", "finish_times", "ma_assignment"]
+                cols = {k: tdf[k].tolist() for k in keys}
+                n_ops = len(inst["pad_mask"])
+                for li, (h, rwd) in enumerate(zip(tree.leaves, rewards)):
+                    row = {k: cols[k][li] for k in keys}
+                    # the re-read instance may be padded to a different width: compare on the original's columns
+                    row = dict(start_times=row["start_times"][:n_ops], finish_times=row["finish_times"][:n_ops], ma_assignment=[m[:n_ops] for m in row["ma_assignment"]])
+                    p.add(evaluations=1)
+                    for obs, trig, text in judge_leaf(spec, inst, h, row, rwd):
+                        p.violation(sig(PID, spec, obs, f"file_instance|{trig}"), dict(rec0, actions=list(h)), f"{spec.key} {iid} (read from file): actions {list(h)}: {text}")
+                        break
+                p.outcome(f"{spec.key}|file|{iid}")
+        finally:
+            shutil.rmtree(d, ignore_errors=True)
+    p.sample(dict(part="instances read from files", env=spec.key), cap=1)
+    return p
+
+
+def dispatch(item):
+    return unit_files(item) if item[0] == "files" else unit(item)
+
+
 def main(tier):
     rep = Report(PID, tier, rule="one case = one complete mask-admitted action sequence (incl. wait actions) of one scheduling instance; distinct = distinct (environment/config, instance, sequence); each is validated against the instance and against an independent simulator")
     rep.assumptions = [
@@ -164,13 +246,18 @@ def main(tier):
     seed = seed_from_env()
     only = os.environ.get("VERIF_ONLY")
     items = [(k, tier, seed) for k in SPECS if not only or only in k]
-    rep.merge_all(pmap(unit, items))
+    files = [("files", k, tier, seed) for k in ("fjsp:mask", "jssp:mask", "fjsp:wait") if not only or only in k]
+    rep.merge_all(pmap(dispatch, items + files))
     rep.extra["environments"] = sorted(i[0] for i in items)
     return rep.finish()
 
 
 def replay(rec):
     spec = SPECS[rec["spec"]]
+    if rec.get("kind") == "sched_file":
+        p = unit_files(("files", rec["spec"], "quick", 0))
+        hit = [v for v in p.violations if v["replay"].get("instance_id") == rec["instance_id"]]
+        return bool(hit), "; ".join(v["msg"] for v in hit[:2]) or "file instances yield valid schedules"
     inst = rec["instance"]
     env = spec.env(inst)
     try:
